@@ -165,6 +165,7 @@ pub proof fn lemma_render_len(cs: Seq<Comp>)
 {
     if cs.len() > 0 { assert(render(cs) == render(cs.drop_last()) + seq!['/'] + cs.last()); }
 }
+#[verifier::rlimit(60)]
 pub proof fn lemma_render_injective(a: Seq<Comp>, b: Seq<Comp>)
     requires all_names(a), all_names(b), render(a) == render(b)
     ensures a == b
@@ -273,6 +274,7 @@ pub proof fn lemma_split_single(a: Seq<char>, c: char)
     lemma_first_index_of(a, c);
     if first_index_of(a, c) >= 0 { assert(a[first_index_of(a, c)] == c); }
 }
+#[verifier::rlimit(60)]
 pub proof fn lemma_render_left(qs: Seq<Comp>)
     requires qs.len() > 0
     ensures render(qs) == seq!['/'] + qs[0] + render(qs.skip(1))
@@ -294,6 +296,7 @@ pub proof fn lemma_render_left(qs: Seq<Comp>)
 }
 /// relative form of a canonical path: drop the leading '/'
 pub open spec fn rel(qs: Seq<Comp>) -> Seq<char> { render(qs).skip(1) }
+#[verifier::rlimit(60)]
 pub proof fn lemma_split_rel(qs: Seq<Comp>)
     requires all_names(qs), qs.len() > 0
     ensures split_on(rel(qs), '/') == qs, rel(qs).len() > 0, rel(qs)[0] != '/', rel(qs).last() != '/'
